@@ -1617,3 +1617,25 @@ MUTANTS += [
  dict(id='F83-benign-close-in-front-of-both-returns', props=['C15', 'C02', 'C03'], expect='SILENT',
       edits=[(MS, '\t\tdefer close(controlEnded)\n\t\tfor {\n\t\t\tmsgType, msg, err := readControlMessage(controlStream)\n\t\t\tif err != nil {\n\t\t\t\tselect {\n\t\t\t\tcase controlErr <- err:\n\t\t\t\tdefault:\n\t\t\t\t}\n\t\t\t\treturn\n\t\t\t}\n\t\t\tcontrolCh <- controlEvent{typ: msgType, msg: msg}\n\t\t\tif msgType == controlTypeEnd {\n\t\t\t\treturn\n', '\t\tfor {\n\t\t\tmsgType, msg, err := readControlMessage(controlStream)\n\t\t\tif err != nil {\n\t\t\t\tselect {\n\t\t\t\tcase controlErr <- err:\n\t\t\t\tdefault:\n\t\t\t\t}\n\t\t\t\tclose(controlEnded)\n\t\t\t\treturn\n\t\t\t}\n\t\t\tcontrolCh <- controlEvent{typ: msgType, msg: msg}\n\t\t\tif msgType == controlTypeEnd {\n\t\t\t\tclose(controlEnded)\n\t\t\t\treturn\n')]),
 ]
+
+# --- round 12 rules ---
+MUTANTS += [
+ dict(id='R12-pad-mask-unguarded', props=['C04'], expect='R-PAD-MASK-GUARDED/pad-mask/',
+      edits=[(MS, '\t\t\t\tif totalChunks > 0 && len(info.Bitmap) > 0 {\n\t\t\t\t\tbitmap, err := BitmapFromBytes(info.Bitmap, int(totalChunks))\n', '\t\t\t\tif totalChunks > 0 && len(info.Bitmap) > 0 {\n\t\t\t\t\tif n := len(info.Bitmap); n == (int(totalChunks)+7)/8 {\n\t\t\t\t\t\tinfo.Bitmap[n-1] &= byte(1<<(totalChunks%8)) - 1\n\t\t\t\t\t}\n\t\t\t\t\tbitmap, err := BitmapFromBytes(info.Bitmap, int(totalChunks))\n')]),
+ dict(id='R12-benign-pad-mask-guarded', props=['C04', 'C06', 'C05', 'C15'], expect='SILENT',
+      edits=[(MS, '\t\t\t\tif totalChunks > 0 && len(info.Bitmap) > 0 {\n\t\t\t\t\tbitmap, err := BitmapFromBytes(info.Bitmap, int(totalChunks))\n', '\t\t\t\tif totalChunks > 0 && len(info.Bitmap) > 0 {\n\t\t\t\t\tif n := len(info.Bitmap); n == (int(totalChunks)+7)/8 && totalChunks%8 != 0 {\n\t\t\t\t\t\tinfo.Bitmap[n-1] &= byte(1<<(totalChunks%8)) - 1\n\t\t\t\t\t}\n\t\t\t\t\tbitmap, err := BitmapFromBytes(info.Bitmap, int(totalChunks))\n')]),
+ dict(id='R12-benign-sidecar-name-fixed-width', props=['C03', 'C07', 'C05'], expect='SILENT',
+      edits=[(MS, '\treturn fmt.Sprintf("%x", h.Sum64())\n', '\treturn fmt.Sprintf("%016x", h.Sum64())\n')]),
+ dict(id='R12-sidecar-name-prefixed-with-path', props=['C03'], expect='R-SIDECAR-NAME-FIXED-LENGTH/sidecar-name/',
+      edits=[(MS, '\treturn fmt.Sprintf("%x", h.Sum64())\n', '\treturn fmt.Sprintf("%s-%x", strings.ReplaceAll(item.RelPath, "/", "_"), h.Sum64())\n')]),
+ dict(id='R12-hash-empty-name-is-xxhash', props=['C06'], expect='R-HASH-DEFAULT/hash-default/',
+      edits=[('internal/transfer/hash.go', '\tcase "", "crc32c":\n\t\treturn HashAlgCRC32C, nil\n\tcase "none":\n\t\treturn HashAlgNone, nil\n', '\tcase "crc32c":\n\t\treturn HashAlgCRC32C, nil\n\tcase "", "none":\n\t\treturn HashAlgNone, nil\n')]),
+ dict(id='R12-benign-hash-cases-split', props=['C06', 'C01'], expect='SILENT',
+      edits=[('internal/transfer/hash.go', '\tcase "", "crc32c":\n\t\treturn HashAlgCRC32C, nil\n', '\tcase "":\n\t\treturn HashAlgCRC32C, nil\n\tcase "crc32c":\n\t\treturn HashAlgCRC32C, nil\n')]),
+ dict(id='R12-turn-query-forced', props=['C16'], expect='R-TURN-QUERY-VERBATIM/turn-query/',
+      edits=[(TS, '\tu.User = url.UserPassword(username, password)\n\treturn u.String(), nil\n', '\tu.User = url.UserPassword(username, password)\n\tu.ForceQuery = true\n\treturn u.String(), nil\n')]),
+ dict(id='R12-schedule-done-when-plan-covers-rest', props=['C17'], expect='R-SCHEDULE-DONE-AT-END/schedule-done/',
+      edits=[(MS, '\tif s.resendPending {\n\t\tidx := s.resendChunk\n\t\ts.resendPending = false\n\t\ts.inFlight++\n\t\treturn idx, chunkSizeForIndex(s.item.Size, s.chunkSize, idx), true\n\t}\n\tfor s.nextChunk < s.totalChunks {', '\tif s.resendPending {\n\t\tidx := s.resendChunk\n\t\ts.resendPending = false\n\t\ts.inFlight++\n\t\treturn idx, chunkSizeForIndex(s.item.Size, s.chunkSize, idx), true\n\t}\n\tif s.plan != nil && s.plan.forceSendFrom == s.totalChunks && s.plan.skippedChunks > 0 {\n\t\ts.scheduleDone = true\n\t}\n\tfor s.nextChunk < s.totalChunks {')]),
+ dict(id='R12-benign-hub-conn-id-renamed', props=['C10', 'C11'], expect='SILENT',
+      edits=[('internal/peers/hub.go', '\tfor _, connID := range behind {\n\t\tconnID := connID\n\t\th.enqueueWait(func() *peerConnection { return h.sessions[sessionID][connID] }, env)\n', '\tfor _, id := range behind {\n\t\tid := id\n\t\th.enqueueWait(func() *peerConnection { return h.sessions[sessionID][id] }, env)\n')]),
+]
